@@ -381,7 +381,17 @@ let cmd_engine (args : sx list) : sx =
       let snd_ = if want 's' then [A "sound"; bool_sx (lab_ok matrix_dom m_goodb atoms_self a (compute_lab matrix_dom atoms_self a) cs)] else [] in
       let cpl = if want 'c' then [A "complete"; bool_sx (cert_complete (char_entails mkey_eqb) (char_refutes mkey_eqb) a cs pres)] else [] in
       let tgt = if want 't' then [A "tight"; bool_sx (m_keys_tight a cs && m_keys_nn a)] else [] in
-      L (wf @ snd_ @ cpl @ tgt)
+      (* information (case kind "cert mat U"): the signed labelling and the exclusion of accepting states *)
+      let inf = if want 'U' then
+         let try_cap cap =
+           let sl = compute_slab_cap (char_ceqb mkey_eqb) (char_refutes mkey_eqb) (nat_of_int cap) a in
+           (slab_ok (char_ceqb mkey_eqb) (char_refutes mkey_eqb) a sl, cert_unamb (char_ceqb mkey_eqb) (char_refutes mkey_eqb) a sl) in
+         let rec go caps last = match caps with
+           | [] -> last
+           | c :: rest -> let (x, y) as r = try_cap c in if x && y then r else go rest r in
+         let (sb, ub) = go [12; 64; 400] (false, false) in
+         [A "slab"; bool_sx sb; A "unamb"; bool_sx ub] else [] in
+      L (wf @ snd_ @ cpl @ tgt @ inf)
   | [A "occ"; A "str"; p; h] ->
       let pat = sx_spat p and host = sx_shost h in
       if pat = [] then L [A "u"]
